@@ -40,6 +40,8 @@ REQUIRED_BRANCHES = ['open_error', 'iter_error', 'end_at_record_boundary', 'end_
                      'with_model_fluxes', 'without_model_fluxes', 'records_1', 'records_2', 'records_3', 'records_4',
                      'fitter', 'direct', 'fit_function', 'history_rewrite', 'history_shared_source', 'big_record',
                      'model_id_exceeds_kept_count', 'later_names_longer', 'record_unusual_dtypes',
+                     'lifecycle_twice_keep', 'lifecycle_peek', 'lifecycle_partial', 'lifecycle_after_error', 'reader_keyword_mode',
+                     'records_via_copy', 'write_after_refused_write',
                      'yielded_1', 'yielded_2', 'yielded_3',
                      'zero_fit_first', 'zero_fit_middle', 'zero_fit_last', 'zero_fit_consecutive', 'complete_file']
 ASSUMPTIONS = ['CPython\'s unpickler is a deterministic function of the bytes it consumes (values are not modelled, only framing)',
@@ -79,9 +81,12 @@ def gen_case(rng, directed=None):
         conv = [conv[0]] * nrec
         zero = [None] * nrec
     case = dict(kind=kind, nrec=nrec, conv=conv, zero=zero, oseed=rng.randrange(1 << 30))
+    # the records reach write() directly or as copy.copy / copy.deepcopy / pickle round-trip copies of the fitted objects
+    case['via'] = directed['via'] if 'via' in directed else rng.choice([None, None, None, 'copy', 'deepcopy', 'pickle'])
     if kind == 'history':
         # write histories over shared objects: what is on disk must be each record as it was when written
-        mode = directed.get('mode') or rng.choice(['rewrite', 'shared_source', 'shared_source_inplace'])
+        mode = directed.get('mode') or rng.choice(['rewrite', 'shared_source', 'shared_source_inplace', 'refused_write'])
+        case['via'] = None
         nrec = case['nrec'] = max(2, nrec)
         case['conv'] = conv = (conv + conv + [False, True])[:nrec]
         case['zero'] = [None] * nrec
@@ -181,8 +186,10 @@ def gen_case(rng, directed=None):
 
 def gen_cases(seed, tier):
     Z = [None] * 4
-    directed = [dict(kind='direct', nrec=1, conv='all', small=True, zero=Z[:1]), dict(kind='direct', nrec=2, conv='none', small=True, zero=Z[:2]),
-                dict(kind='direct', nrec=3, conv='mixed', small=True, zero=Z[:3]), dict(kind='direct', nrec=4, conv='all', small=True, zero=Z),
+    directed = [dict(kind='direct', nrec=1, conv='all', small=True, zero=Z[:1], via=None),
+                dict(kind='direct', nrec=2, conv='none', small=True, zero=Z[:2], via='copy'),
+                dict(kind='direct', nrec=3, conv='mixed', small=True, zero=Z[:3], via='deepcopy'),
+                dict(kind='direct', nrec=4, conv='all', small=True, zero=Z, via='pickle'),
                 dict(kind='fitter', nrec=1, conv='none', small=True, zero=Z[:1]), dict(kind='fitter', nrec=2, conv='all', small=False, zero=Z[:2]),
                 dict(kind='fitter', nrec=3, conv='all', small=False, zero=Z[:3]), dict(kind='fitter', nrec=4, conv='none', small=False, zero=Z),
                 # records with zero kept fits at every position, with and without predicted fluxes
@@ -197,6 +204,7 @@ def gen_cases(seed, tier):
                 # write histories over shared / re-used objects
                 dict(kind='history', mode='rewrite', nrec=3, conv='all'), dict(kind='history', mode='shared_source', nrec=3, conv='none'),
                 dict(kind='history', mode='shared_source_inplace', nrec=2, conv='mixed'),
+                dict(kind='history', mode='refused_write', nrec=3, conv='mixed'),
                 # a record with more fits than any plausible per-pickle chunk
                 dict(kind='direct', nrec=2, conv='none', small=True, big=0, zero=Z[:2]),
                 # large grids with few kept fits, names growing from record to record, non-default dtypes
@@ -239,9 +247,24 @@ def produce(case, d):
     if case['kind'] == 'fitfile':
         infos = fit_file(case, d, path)
     else:
-        infos = build_infos(case, d)
+        infos = [via_copy(info, case.get('via')) for info in build_infos(case, d)]
         write_file(infos, path)
     return infos, [pickle.dumps(info, 2) for info in infos], path, infos[0].meta
+
+
+def via_copy(info, via):
+    """the record as a caller may pass it on: a shallow copy, a deep copy or a pickle round trip of the fitted object
+    (all three go through __getstate__/__setstate__ and so drop `meta`; the caller re-attaches it, as FitInfoFile does)"""
+    if via == 'copy':
+        out = copy.copy(info)
+    elif via == 'deepcopy':
+        out = copy.deepcopy(info)
+    elif via == 'pickle':
+        out = pickle.loads(pickle.dumps(info, pickle.HIGHEST_PROTOCOL))
+    else:
+        return info
+    out.meta = info.meta
+    return out
 
 
 def write_history(case, path):
@@ -274,6 +297,23 @@ def write_history(case, path):
         for r, conv in zip(case['recs'], case['conv']):
             info = pk.make_fitinfo(r['names'], r['chi2'], flags=case['flags'], source_name=r['source_name'],
                                    model_fluxes=r['fluxes'] if conv else None, meta=meta)
+            if case['mode'] == 'refused_write':
+                if first_meta is None:
+                    first_meta = info.meta
+                else:
+                    # a record fitted with another model directory: write() refuses it; the writer is used again afterwards
+                    other = pk.make_fitinfo(r['names'], r['chi2'], flags=case['flags'], source_name='refused',
+                                            meta=(case['model_dir'] + '_other', filters, ext))
+                    try:
+                        fo.write(other)
+                    except ValueError:
+                        pass
+                    else:
+                        written.append(pickle.dumps(other, 2))     # accepted after all: then it is a written record
+                        snaps.append(copy.deepcopy(other))
+                    info.meta = first_meta
+                write(info)
+                continue
             if shared is None:
                 shared = info.source
                 first_meta = info.meta
@@ -413,11 +453,15 @@ def write_file(infos, path):
 
 # ----------------------------------------------------------------------------- the real reader
 
-def read_back(path):
-    """(outcome class, records yielded, exception name) of FitInfoFile(path, 'r') + full iteration"""
+def open_reader(path, keyword):
     from sedfitter.fit_info import FitInfoFile
+    return FitInfoFile(path, mode='r') if keyword else FitInfoFile(path, 'r')
+
+
+def read_back(path, keyword=False):
+    """(outcome class, records yielded, exception name) of FitInfoFile(path, 'r') + full iteration"""
     try:
-        f = FitInfoFile(path, 'r')
+        f = open_reader(path, keyword)
     except Exception as e:                       # noqa: any exception from the constructor = error at open
         return 'O', [], type(e).__name__
     recs = []
@@ -434,6 +478,112 @@ def read_back(path):
             f.close()
         except Exception:
             pass
+
+
+SCRIPTS = ('twice_keep', 'peek', 'partial')
+
+
+def run_script(f, script, check):
+    """drive one reader object through several passes; `check(j, record)` is called for the j-th record yielded over
+    all passes together, at the moment it is yielded.  returns (records yielded in total, an exception was met)"""
+    state = dict(j=0, raised=False)
+
+    def take(it, limit=None):
+        got = []
+        try:
+            for info in it:
+                check(state['j'], info)
+                state['j'] += 1
+                got.append(info)
+                if state['j'] > 64 or (limit is not None and len(got) >= limit):
+                    break
+        except LifeCycleViolation:
+            raise
+        except Exception:         # noqa: the reader raised; the object is used again afterwards
+            state['raised'] = True
+        return got
+    if script == 'twice_keep':
+        got = take(iter(f))
+        for info in got:
+            info.keep(('N', 1))       # what plot() / extract_parameters() / write_parameters() do to every record
+        take(iter(f))
+        take(iter(f))
+    elif script == 'peek':
+        for info in take(iter(f), limit=1):
+            info.keep(('N', 0))
+        take(iter(f))
+        take(iter(f))
+    else:
+        it = iter(f)
+        for info in take(it, limit=2):
+            info.keep(('N', 1))
+        take(iter(f))
+        take(it)
+        take(iter(f))
+    return state['j'], state['raised']
+
+
+class LifeCycleViolation(Exception):
+    pass
+
+
+def life_cycles(case, path, tp, n, k, bounds, single, infos, written):
+    """(property violation, model/implementation disagreement, branches, number of life-cycles run).
+    Every pass over one reader continues where the previous one stopped, so the records of all passes together
+    must be an exact prefix of the written records, each identical to the written one at its position."""
+    rng = case_rng(case['oseed'], PID, 'lifecycle')
+    by = {}
+    for t, (st, c) in single.items():
+        by.setdefault((st, bool(bounds and t in bounds)), []).append(t)
+    cuts = {n}
+    if bounds:
+        cuts |= {b for b in bounds[1:] if b in single}
+    for key, want in ((('E', False), 3), (('I', False), 2), (('O', False), 1)):
+        ts = sorted(by.get(key, []))
+        cuts |= set(ts if len(ts) <= want else rng.sample(ts, want))
+    branches = set()
+    viol = bad = None
+    n_lc = 0
+    shutil.copy(path, tp)
+    for t in sorted(cuts, reverse=True):
+        os.truncate(tp, t)
+        complete = None
+        if bounds is not None:
+            complete = sum(1 for b in bounds[1:] if b <= t) if t >= bounds[0] else 0
+        for script in SCRIPTS:
+            try:
+                f = open_reader(tp, keyword=(n_lc % 2 == 0))
+            except Exception:     # noqa: error at open, as in the single pass
+                if single[t][0] != 'O' and bad is None:
+                    bad = 'offset %d: a second reader of the same file failed at open, the first did not' % t
+                continue
+            n_lc += 1
+
+            def check(j, rec):
+                if j >= k:
+                    raise LifeCycleViolation('record %d yielded but only %d were written' % (j + 1, k))
+                if not same_record(rec, infos[j], written[j]):
+                    raise LifeCycleViolation('the %d-th record yielded over all passes differs from written record %d' % (j + 1, j))
+                if complete is not None and j >= complete:
+                    raise LifeCycleViolation('record %d yielded but only %d complete records lie before the cut' % (j + 1, complete))
+            try:
+                total, raised = run_script(f, script, check)
+                branches.add('lifecycle_' + script)
+                if raised:
+                    branches.add('lifecycle_after_error')
+                if single[t][0] == 'E' and not raised and total != single[t][1] and bad is None:
+                    bad = ('offset %d of %d, reader life-cycle %s: %d records over all passes, a single full pass yields %d'
+                           % (t, n, script, total, single[t][1]))
+            except LifeCycleViolation as e:
+                if viol is None:
+                    viol = ('offset %d of %d, one FitInfoFile object, life-cycle %r (passes over the same reader; yielded records '
+                            'trimmed with keep() between passes): %s' % (t, n, script, e))
+            finally:
+                try:
+                    f.close()
+                except Exception:  # noqa
+                    pass
+    return viol, bad, branches, n_lc
 
 
 def _arr_equal(a, b):
@@ -587,8 +737,13 @@ def sweep(case, with_model=True):
         head_marks = [len(head_parts[0]), len(head_parts[0]) + len(head_parts[1])] if hlen else []
         offsets, exhaustive, exhaustive_rec = choose_offsets(case, n, hlen, sorted(set(marks)), layout_known, head_marks,
                                                              opcode_marks(data, hlen))
-        branches.add(dict(fitfile='fit_function', history='history_' + case.get('mode', '').replace('_inplace', ''))
-                     .get(case['kind'], case['kind']))
+        if case['kind'] == 'history' and case.get('mode') == 'refused_write':
+            branches.add('write_after_refused_write')
+        else:
+            branches.add(dict(fitfile='fit_function', history='history_' + case.get('mode', '').replace('_inplace', ''))
+                         .get(case['kind'], case['kind']))
+        if case.get('via') and case['kind'] in ('direct', 'fitter'):
+            branches.add('records_via_copy')
         if case.get('big') is not None:
             branches.add('big_record')
         if case.get('exotic'):
@@ -625,9 +780,13 @@ def sweep(case, with_model=True):
         if not layout_known:
             first_bad = ('the written file (%d bytes) is not the three header pickles followed by one protocol-2 pickle per '
                          'record (%d + %d bytes expected): the framing model does not describe this file' % (n, len(head), len(tail)))
+        single = {}
         for t in sorted(offsets, reverse=True):
             os.truncate(tp, t)
-            st, recs, exc = read_back(tp)
+            st, recs, exc = read_back(tp, keyword=bool(t % 2))
+            if t % 2:
+                branches.add('reader_keyword_mode')
+            single[t] = (st, len(recs))
             hist[st] = hist.get(st, 0) + 1
             complete = None
             if bounds is not None:
@@ -668,7 +827,12 @@ def sweep(case, with_model=True):
                     if first_bad is None:
                         first_bad = ('offset %d of %d: impl outcome=%s records=%d (exception %s); model outcome=%s records=%d '
                                      'frames=%r; written frames=%r' % (t, n, st, len(recs), exc, mst, mn, moffs, bounds))
-        stats = dict(file_len=n, header_len=hlen, records=k, offsets=len(offsets),
+        # ---- reader life-cycles on one FitInfoFile object, at a sample of the cuts
+        lc_viol, lc_bad, lc_branches, n_lc = life_cycles(case, path, tp, n, k, bounds, single, infos, written)
+        branches |= lc_branches
+        first_viol = first_viol or lc_viol
+        first_bad = first_bad or lc_bad
+        stats = dict(file_len=n, header_len=hlen, records=k, offsets=len(offsets), life_cycles=n_lc,
                      record_offsets=sum(1 for t in offsets if t >= hlen), exhaustive=exhaustive,
                      exhaustive_inside_records=exhaustive_rec, outcomes=hist)
         return dict(ok=first_bad is None and first_viol is None, violates=True if first_viol else None,
